@@ -173,6 +173,13 @@ def run_verus_crate(cname, cdef, outdir, threads, extra_args=()):
                     if not tags:
                         tags = meta["map"][k][1]
                     break
+        # a failed invariant / precondition is reported at the place where it is violated (primary span) with the failed clause as a secondary span:
+        # if that clause carries clause-level tags (`//# Cxx`), they decide the attribution
+        for s2 in d["spans"]:
+            L2 = s2["line_start"]
+            if s2 is not sp and 0 < L2 <= len(gen_lines) and "//#" in gen_lines[L2 - 1] and ("failed" in (s2.get("label") or "") or "invariant" in d["message"]):
+                tags = meta["map"][L2 - 1][1]
+                break
         other = [dict(line=s["line_start"], label=s.get("label"), text=(s.get("text") or [{}])[0].get("text", "").strip(),
                       origin=meta["map"][s["line_start"] - 1][0] if 0 < s["line_start"] <= len(meta["map"]) else None)
                  for s in d["spans"]]
